@@ -104,6 +104,7 @@ int sm4_ctr_sm3_hmac_decrypt_update(SM4_CTR_SM3_HMAC_CTX *ctx, const uint8_t *in
 		if (inlen <= len) {
 			memcpy(ctx->mac + ctx->maclen, in, inlen);
 			ctx->maclen += inlen;
+			*outlen = 0;
 			return 1;
 		} else {
 			memcpy(ctx->mac + ctx->maclen, in, len);
